@@ -580,6 +580,18 @@ func calledOnlyFromDepth(w *core.World, g *ssa.Function, owner string, depth int
 // instruction on it) is consistent with the combination. Values are touched
 // through comparisons only, so the nine cases are exhaustive.
 func orderingTable(head *ssa.BasicBlock, isReplace func(ssa.Instruction) bool, classify func(p *core.Path, v ssa.Value) string) (replaced [3][3]bool, paths int, ok bool) {
+	return orderingTableP(head, func(p *core.Path) bool {
+		for _, in := range p.Instrs {
+			if isReplace(in) {
+				return true
+			}
+		}
+		return false
+	}, classify)
+}
+
+// orderingTableP is orderingTable with the replacement recognised on the whole path.
+func orderingTableP(head *ssa.BasicBlock, replaces func(p *core.Path) bool, classify func(p *core.Path, v ssa.Value) string) (replaced [3][3]bool, paths int, ok bool) {
 	sign := func(op token.Token, s int) bool { // does "cand op best" hold when cand ? best has sign s (0:<, 1:=, 2:>)
 		switch op {
 		case token.LSS:
@@ -602,13 +614,7 @@ func orderingTable(head *ssa.BasicBlock, isReplace func(ssa.Instruction) bool, c
 		if !p.Closed {
 			return
 		}
-		rep := false
-		for _, in := range p.Instrs {
-			if isReplace(in) {
-				rep = true
-			}
-		}
-		if !rep {
+		if !replaces(p) {
 			return
 		}
 		paths++
